@@ -21,7 +21,9 @@ TECHNIQUE = 'runtime monitor: reference rate limiter over virtual-clock historie
 RULE = ('seeded hit-time sequences (bursts, exact period boundaries, window edges) x fire_count in '
         '{-1,0,1,2,3,10,"abc","1.5","",absent} x fire_period in {0,1,10,1000,"abc",absent} x window (none, start, end, '
         'both) x action kind (snapshot, log, metric, span), via direct actions and via build_trigger; concurrent: 2-8 '
-        'threads on one tracepoint under the parked-__str__ gate and free-running; non-trivial = at least one hit '
+        'threads on one tracepoint under the parked-__str__ gate and free-running, hits parked while their condition is '
+        'evaluated, a second hit run at every line event of the first one\'s limit check (sys.monitoring), sequential hits '
+        'after everything settled; non-trivial = at least one hit '
         'was refused by a limit or threads reached the tracepoint while a collection was held open; distinct by canonical history')
 ASSUMPTIONS = ['time is the agent\'s own reading of time.time_ns (virtual clock)',
                'under concurrency only the upper bounds are asserted (count <= fire_count, spacing >= period); '
@@ -29,7 +31,8 @@ ASSUMPTIONS = ['time is the agent\'s own reading of time.time_ns (virtual clock)
 REQUIRE = {'hits_checked': 5000, 'refused_by_count': 200, 'refused_by_period': 200, 'refused_by_window': 100,
            'boundary_hits': 50, 'gated_cases': 30, 'hostile_schedules': 30,
            'overlap_cases': 30, 'hits_while_collection_open': 30, 'interpose_points': 15,
-           'overlap_cases_with_condition': 8, 'sequential_probe_hits': 60}
+           'overlap_cases_with_condition': 8, 'sequential_probe_hits': 60,
+           'line_preemption_points': 40, 'line_preemptions_where_second_hit_completed': 2}
 T0 = 1_700_000_000_000_000_000
 MS = 1_000_000
 
@@ -49,6 +52,7 @@ def plan(tier, seed):
     specs += split_seeds('s%s' % seed, 16 * n, 2, 'stress')
     specs += split_seeds('o%s' % seed, 64 * n, 4, 'overlap')
     specs += split_seeds('i%s' % seed, 12 * n, 3, 'interpose')
+    specs += split_seeds('l%s' % seed, 8 * n, 4, 'linepreempt')
     return specs
 
 
@@ -715,8 +719,117 @@ def case_interpose(seed, out, spec, wd):
                      'preemption_points_tried': points})
 
 
+
+
+def case_linepreempt(seed, out, spec, wd):
+    """Pre-emption inside the limiter itself: thread A asks the action whether its hit may collect; at its k-th line
+    inside deep/api/tracepoint (every k is tried, sys.monitoring LINE events) a second thread performs a complete hit
+    (ask, then record). Both use the action exactly as the agent's action context does: can_trigger(ts), then
+    record_triggered(ts) or release(ts). However the two interleave, the limits hold, and a budget that is left can
+    be used afterwards."""
+    import os
+    from vf import inject
+    r = Rng('c04l', seed)
+    fc = r.pick([1, 1, 2])
+    fp = r.pick([0, 0, 1000])
+    a_outcome = r.pick(['record', 'record', 'release'])
+    target = os.path.join('deep', 'api', 'tracepoint')
+    points = 0
+    k = 0
+    overlapped = 0
+    while k < 60:
+        trig = direct_trigger('tp', 'x.py', 1, 'Snapshot', {'fire_count': fc, 'fire_period': fp})
+        action = trig.actions[0]
+        ts_a, ts_b = T0, T0 + r.pick([0, 1, 5 * MS])
+        a_tid = [None]
+        count = [0]
+        go_b, b_done = threading.Event(), threading.Event()
+        res = {}
+        hit_point = [False]
+
+        def on_line(code, line):
+            if threading.get_ident() != a_tid[0] or hit_point[0]:
+                return None
+            n = count[0]
+            count[0] = n + 1
+            if n == k:
+                hit_point[0] = True
+                go_b.set()
+                b_done.wait(0.08)    # B finishes its hit here - or is blocked by a lock A holds: then A goes on
+                res['b_completed_inside'] = b_done.is_set()
+            return None
+
+        def thread_a():
+            a_tid[0] = threading.get_ident()
+            res['a'] = action.can_trigger(ts_a)
+            a_tid[0] = None
+            if res['a']:
+                (action.record_triggered if a_outcome == 'record' else action.release)(ts_a)
+
+        def thread_b():
+            if not go_b.wait(3):
+                return
+            res['b'] = action.can_trigger(ts_b)
+            if res['b']:
+                action.record_triggered(ts_b)
+            b_done.set()
+
+        with inject.LineInjector(lambda f: target in f, on_line):
+            tb = threading.Thread(target=thread_b)
+            ta = threading.Thread(target=thread_a)
+            tb.start()
+            ta.start()
+            ta.join(10)
+            go_b.set()
+            tb.join(10)
+        if ta.is_alive() or tb.is_alive():
+            out.inconc('C04 line pre-emption threads did not finish')
+            return
+        if not hit_point[0]:
+            break            # A's hit has fewer than k+1 lines: every point has been tried
+        points += 1
+        granted = int(bool(res.get('a'))) + int(bool(res.get('b')))
+        collected = int(bool(res.get('a')) and a_outcome == 'record') + int(bool(res.get('b')))
+        if res.get('b_completed_inside'):
+            overlapped += 1
+        replay = replay_spec(spec, seed)
+        witness = {'fire_count': fc, 'fire_period_ms': fp, 'first_thread_preempted_at_its_line_event': k,
+                   'first_thread': {'asked_at_ms': 0, 'granted': res.get('a'), 'then': a_outcome},
+                   'second_thread': {'asked_at_ms': (ts_b - T0) / MS, 'granted': res.get('b')}}
+        # (a first hit that gives its claim back - condition not met - does not count: the second may then be allowed)
+        if a_outcome == 'release':
+            granted = int(bool(res.get('b')))
+        if granted > fc:
+            out.violation('ratelimit:concurrent-count-exceeded', '%d hits were allowed to collect at once with fire_count=%d '
+                                                                 '(second thread ran while the first was at line event %d '
+                                                                 'of its limit check)' % (granted, fc, k), witness, replay)
+            return
+        if fp and granted > 1:
+            out.violation('ratelimit:concurrent-period-violated', 'two hits %s ms apart were both allowed with '
+                                                                  'fire_period=%d' % ((ts_b - T0) / MS, fp), witness, replay)
+            return
+        # afterwards: what is left of the budget can be used by a later hit, and no more than that
+        later = T0 + 10 * (fp + 1000) * MS
+        extra = 0
+        for j in range(fc + 1):
+            if action.can_trigger(later + j * (fp + 1000) * MS):
+                action.record_triggered(later + j * (fp + 1000) * MS)
+                extra += 1
+        if collected + extra != fc:
+            mech = 'ratelimit:due-hit-not-collected' if collected + extra < fc else 'ratelimit:exceeded-count'
+            out.violation(mech, 'after the two overlapping hits (%d collected) %d later hits were allowed: %d in total with '
+                                'fire_count=%d' % (collected, extra, collected + extra, fc), witness, replay)
+            return
+        k += 1
+    out.count('line_preemption_points', points)
+    out.count('line_preemptions_where_second_hit_completed', overlapped)
+    out.case({'fc': fc, 'fp': fp, 'a': a_outcome, 'seed': str(seed)}, nontrivial=points > 0,
+             sample={'fire_count': fc, 'fire_period_ms': fp, 'preemption_points_tried': points,
+                     'second_hit_completed_inside': overlapped})
+
+
 CASES = {'hist': case_hist, 'gate': case_gate, 'stress': case_stress, 'overlap': case_overlap,
-         'interpose': case_interpose}
+         'interpose': case_interpose, 'linepreempt': case_linepreempt}
 
 
 def run_shard(spec, out):
